@@ -131,7 +131,9 @@ class MutualInfoClimateNetwork(ClimateNetwork):
             print("Calculating mutual information matrix at zero lag from "
                   "anomaly values using cython...")
 
-        #  Normalize anomaly time series to zero mean and unit variance
+        #  Normalize a copy of the anomaly time series to zero mean and unit
+        #  variance (the anomaly array is memoised by the shared data object)
+        anomaly = anomaly.copy()
         self.data.normalize_time_series_array(anomaly)
 
         #  Create local transposed copy of anomaly
